@@ -3,7 +3,7 @@ import copy
 import numpy as np
 
 from sim.core import Violation, Inconclusive, InjectedAbort, SimRandom
-from sim.models import nested_pomdp_variant, gen_pomdp_spec, POMDPView, make_pomdp, dyadic
+from sim.models import interrupted_first_sweep, nested_pomdp_variant, gen_pomdp_spec, POMDPView, make_pomdp, dyadic
 from sim.refsolve import fsc_value, pomdp_arrays
 from sim.ctx import RunCtx, make_scheduler, gen_sched
 from sim import shrink as shr
@@ -61,6 +61,8 @@ def gen_case(rng, tier, idx):
     else:
         cfg = dict(what='ga', nodes=rng.randint(1, 2), iterations=rng.randint(1, 10), seed=rng.choice((0, 1, 5, 99)))
     plain = idx % 4 == 0
+    if cfg['what'] != 'exec' and not plain and rng.random() < 0.25:
+        cfg['abort'] = rng.randrange(1000)
     if cfg['what'] == 'exec' and not plain:
         v = rng.random()
         if v < 0.1:
@@ -80,7 +82,7 @@ def execute(case, script=None):
     pv = POMDPView(case['spec'])
     ctx = RunCtx(PROP, None)
     ctx.declare_probes('exec_histories', 'multi_node_stochastic', 'evaluator_checked', 'absorbing_with_reward', 'bpi_runs', 'bpi_tables',
-                       'bpi_node_added', 'bpi_candidate_lowered_value', 'nested_run', 'rerun_after_abort', 'aborts_delivered', 'ga_runs', 'low_probability_action_taken', 'execution_longer_than_700_steps')
+                       'bpi_node_added', 'bpi_candidate_lowered_value', 'nested_run', 'rerun_after_abort', 'aborts_delivered', 'first_sweep_interrupted', 'ga_runs', 'low_probability_action_taken', 'execution_longer_than_700_steps')
     sched = make_scheduler(case, script, ctx)
     try:
         cfg = case['cfg']
@@ -147,6 +149,8 @@ def _exec(pv, cfg, ctx, sched):
         ctx.probe('multi_node_stochastic')
     if _has_paying_absorbing(pv):
         ctx.probe('absorbing_with_reward')
+    if cfg.get('abort') is not None and interrupted_first_sweep(pomdp, ctx, 1 + (cfg['abort'] // 11) % 17):
+        ctx.probe('first_sweep_interrupted')
     _check_evaluator(ctx, pv, pomdp, As, Ns, ini, 'random controller')
     pol = StochasticFiniteStateController(pomdp, As, Ns, ini)
     rng = SimRandom(sched)
@@ -222,6 +226,8 @@ def _exec(pv, cfg, ctx, sched):
 def _learner(pv, cfg, ctx, sched):
     import torch
     pomdp = make_pomdp(pv, ctx)
+    if cfg.get('abort') is not None and interrupted_first_sweep(pomdp, ctx, 1 + cfg['abort'] % 17):
+        ctx.probe('first_sweep_interrupted')
     s0 = np.array([pv.init.get(s, 0.0) for s in range(pv.nS)])
     if _has_paying_absorbing(pv):
         ctx.probe('absorbing_with_reward')
